@@ -274,6 +274,68 @@ func c15SpecialList() []c15Special {
 	}
 }
 
+// c15SameType: modules that each define a type of the SAME name (never imported into
+// one scope: the importer takes only the factory method), whose method uses a helper of
+// its own module; objects of the different modules are used in every order.
+func c15SameType() []c15Special {
+	var out []c15Special
+	perms := [][]int{{0, 1, 2}, {0, 2, 1}, {1, 0, 2}, {1, 2, 0}, {2, 0, 1}, {2, 1, 0}}
+	for mask := 3; mask < 8; mask++ { // which of main(1), 模1(2), 模2(4) define the type
+		if mask == 4 || mask&(mask-1) == 0 {
+			continue
+		}
+		for desc := 0; desc < 2; desc++ {
+			for pi, perm := range perms {
+				files := map[string]string{}
+				mod := func(i int) string {
+					return fmt.Sprintf("如何助？\n    输出%d\n定义型：\n    其P = %d\n    如何值？\n        输出（助） + 其P\n如何造%d？\n    输出（新建型）", i*100, i, i)
+				}
+				var main strings.Builder
+				order := []int{1, 2}
+				if desc == 1 {
+					order = []int{2, 1}
+				}
+				for _, j := range order {
+					if mask&(1<<uint(j)) != 0 {
+						fmt.Fprintf(&main, "导入“模%d”之造%d\n", j, j)
+						files[fmt.Sprintf("模%d.zn", j)] = mod(j)
+					}
+				}
+				if mask&1 != 0 {
+					main.WriteString(mod(0) + "\n")
+				}
+				var objs []int
+				for i := 0; i < 3; i++ {
+					if mask&(1<<uint(i)) != 0 {
+						fmt.Fprintf(&main, "令物%d = （造%d）\n", i, i)
+						objs = append(objs, i)
+					}
+				}
+				var want []string
+				for _, k := range perm {
+					if mask&(1<<uint(k)) == 0 {
+						continue
+					}
+					fmt.Fprintf(&main, "（显示：以物%d（值））\n", k)
+					want = append(want, zn.Canon(float64(k*100+k)))
+				}
+				// and once more in the same order (whatever the first round left behind)
+				for _, k := range perm {
+					if mask&(1<<uint(k)) == 0 {
+						continue
+					}
+					fmt.Fprintf(&main, "（显示：以物%d（值））\n", k)
+					want = append(want, zn.Canon(float64(k*100+k)))
+				}
+				main.WriteString("输出0")
+				files["主.zn"] = main.String()
+				out = append(out, c15Special{fmt.Sprintf("same-type-name-mask%d-desc%d-perm%d", mask, desc, pi), files, strings.Join(want, " | "), 0})
+			}
+		}
+	}
+	return out
+}
+
 func c15SpecialCheck(x c15Special) *mc.Failure {
 	cs := mc.J(c15Case{Special: x.name, Files: x.files})
 	got := c15Run(x.files)
@@ -294,7 +356,7 @@ func c15SpecialCheck(x c15Special) *mc.Failure {
 }
 
 func c15Specials(c *mc.Ctx) {
-	for i, x := range c15SpecialList() {
+	for i, x := range append(c15SpecialList(), c15SameType()...) {
 		idx := int64(1<<50) + int64(i)
 		if !c.Mine(idx) {
 			continue
@@ -313,7 +375,7 @@ func init() {
 	mc.Register(&mc.Check{
 		ID:    "C15",
 		Level: "exploration",
-		Rule: "E1 exhaustive: every directed graph with self-loops on n module files (all 2^(n*n) edge sets; module 0 = main file; edges into 0 import the main file by name) x both import orders; acyclic reachable parts additionally x 6 probe variants (calls only, assignment to an imported name -> 44, read of a non-exported variable -> 42, use of an imported type, selective import then use of an unlisted name -> 42, selective import then call). Every module prints a marker when its body runs and defines a method calling the method of each module it imports, a type and a plain variable. Real files in a scratch directory through LoadFile/Execute. Oracle from the graph alone: reachable cycle => error 63; otherwise the exact load order (each module once, after everything it imports, main last), the exact call traces and the probe outcome. Plus 8 fixed scenarios (nested directories, missing module 60, library, selective library import, missing library 64, read-only library name, diamond). Distinct by construction; non-trivial = at least one edge.",
+		Rule: "E1 exhaustive: every directed graph with self-loops on n module files (all 2^(n*n) edge sets; module 0 = main file; edges into 0 import the main file by name) x both import orders; acyclic reachable parts additionally x 6 probe variants (calls only, assignment to an imported name -> 44, read of a non-exported variable -> 42, use of an imported type, selective import then use of an unlisted name -> 42, selective import then call). Every module prints a marker when its body runs and defines a method calling the method of each module it imports, a type and a plain variable. Real files in a scratch directory through LoadFile/Execute. Oracle from the graph alone: reachable cycle => error 63; otherwise the exact load order (each module once, after everything it imports, main last), the exact call traces and the probe outcome. Plus the same-type-name family (every subset of >= 2 of {main, module 1, module 2} defining a type of one name whose method uses a helper of its own module, importers taking only the factory method, both import orders, the objects used in every order, twice) and 8 fixed scenarios (nested directories, missing module 60, library, selective library import, missing library 64, read-only library name, diamond). Distinct by construction; non-trivial = at least one edge.",
 		Assumptions: []string{
 			"importing the same module twice from one file is not generated (statement does not say whether the second import is an error)",
 			"module graphs above n files are not covered",
